@@ -135,8 +135,18 @@ def in_final_rules(rep, fb, rule):
     if any(x.get('callee', {}).get('q', '').endswith('LargeMicroStep::isInFinal') for x in arm_nodes):
         problems.append('recurses into the active child (a completed <parallel> child then makes the compound state "final")')
 
-    def mentions_final(n):
-        return any(m[0] == 'USCXML_STATE_FINAL' for x in sub(n) for m in (x.get('mac') or []))
+    # locals of the arm: `auto it = std::find_if(.., [](child) { .. FINAL .. }); if (it != end) return true;` tests through `it`
+    local_init = {}
+    for x in arm_nodes:
+        if x['k'] == 'DeclStmt':
+            for d_ in x.get('decls', []):
+                if isinstance(d_.get('init'), dict):
+                    local_init[d_['name']] = d_['init']
+
+    def mentions_final(n, depth=0):
+        if any(m[0] == 'USCXML_STATE_FINAL' for x in sub(n) for m in (x.get('mac') or [])):
+            return True
+        return depth < 3 and any(x['k'] == 'DeclRefExpr' and x.get('ref', {}).get('name') in local_init and mentions_final(local_init[x['ref']['name']], depth + 1) for x in sub(n))
     for x in arm_nodes:
         if x['k'] == 'ReturnStmt' and x.get('c'):
             v = tab.const_of(x['c'][0])
